@@ -130,3 +130,20 @@ claim("C17", "TLC enumeration of the complete spelling domain from an independen
       "from_atomic_number and a numpy integer; the library's own name of every Z in three letter cases; radii/mass by four routes; random multisets through sorted() and "
       "chemical_formula. TLC validates each observation against Element!Lookup / SortSpec / Formula.",
       "Names and numeric columns are the library's own data (consistency across routes only); 'D' is deliberately hydrogen; quick tier enumerates every third rejected code, thorough all.")
+
+claim("C12", "TLC trace validation of every UnitCell construction route in exact BigInt arithmetic + model checking of the lattice identities",
+      "Lattice.tla defines the exact geometry of an integer lattice / integer Gram matrix with rational scale (Gram, adjugate inverse, reciprocal metric, squared lengths, "
+      "signed cos^2, volume^2) and the constructors as actions. MC_Lattice checks the polynomial identities (adj L . L = det I, adj G . G = det G I, det G = det(L)^2, star "
+      "formulas = reciprocal metric, the identities behind the lower-triangular direct/inverse matrices, BigInt = plain arithmetic) over all lattices with entries -2..2 up "
+      "to symmetry (334k states quick, 4.8M thorough) and prints lattices for replay. Real cells (random, near-degenerate 8..170 degrees, six crystal families, TLC-emitted) go "
+      "through UnitCell(vectors), from_lengths_and_angles, triclinic and all seven named constructors in radians and degrees; TLC checks Gram, mutual inverses, aliases, "
+      "reciprocal metric, lengths, angles, volume = determinant, star quantities, to_cartesian, the fractional round trip and route-vs-route agreement.",
+      "Floats shipped as round(x 2^44) BigInts; slack 2^-30 x (abc/V)^2 computed exactly from G (measured noise <= 3e-15 x (abc/V)^2); guards: lengths 1..100, angles 8..170 degrees.")
+claim("C18", "TLC trace validation with an exact optimality certificate and a rational rotation net + model checking of the post-SVD steps",
+      "Kabsch.tla states orthogonality, determinant +1, exact superposition, the first/second-order optimality certificate (R^T H symmetric, tr(M) I - M positive semidefinite "
+      "by principal minors) and optimality against a net of exact rational rotations from integer quaternions. MC_Kabsch shows for every integer covariance with entries -1..1 that "
+      "the certificate implies optimality in the net and that the code's post-SVD steps on integer SVDs always give a certified proper rotation (69k states; as-built deviation "
+      "without determinant correction named). Real kabsch_rotation_matrix / reorient_points / rmsd_points / Dimer(transform_ab='calculate') run on integer point sets (generic, "
+      "planar, collinear; rotated, mirrored, noisy; 3..50 points; TLC-emitted degenerate covariances); TLC checks Orthogonal, Det1, Superposes, both certificate clauses, "
+      "NoBetterInNet (|q|^2 <= 30, ~2200 rotations), Reorient and Rmsd on outputs quantised to 2^-20.",
+      "Optimality over SO(3) is decided by the exact certificate on the quantised output plus the finite net, with slack tau = 2^-13 (|A|^2+|B|^2)/2; the SVD itself is not modelled.")
